@@ -28,7 +28,7 @@ from typing import TYPE_CHECKING
 from igraph import Vertex
 
 from explorerscript.ssb_converting.decompiler.write_handlers.abstract import AbstractWriteHandler
-from explorerscript.ssb_converting.ssb_special_ops import SsbLabelJump
+from explorerscript.ssb_converting.ssb_special_ops import OP_JUMP, SsbLabelJump
 
 if TYPE_CHECKING:
     from explorerscript.ssb_converting.ssb_decompiler import ExplorerScriptSsbDecompiler
@@ -49,9 +49,10 @@ class JumpWriteHandler(AbstractWriteHandler):
         logger.debug("Handling a jump; (%s)...", self.start_vertex["op"])
         op: SsbLabelJump = self.start_vertex["op"]
         # TODO: Writing this source map entry may be confusing, if no jump is written next (by the label handler)...
-        if not op.synthetic:
+        if not op.synthetic and op.root.op_code.name == OP_JUMP:
             # An inserted break / continue (written as jump, if it turned out to lie outside of the loop) is not an
-            # operation of its own, it must not replace the entry of the operation it was inserted after.
+            # operation of its own, it must not replace the entry of the operation it was inserted after. Neither is the
+            # jump that is written for a branch of a switch the statement of its Case operation.
             self.decompiler.source_map_add_jump_opcode(op.offset)
         # Nothing to do, this is dealt with, when processing the label after this
         # either we print a jump there, or we just proceed.
